@@ -163,6 +163,7 @@ func gen(c *ex.Ctx) {
 	var sb strings.Builder
 	sb.WriteString("namespace VaxisModel.Gen.WindowFacts\n\n")
 	genBody(c, &sb)
+	skeletons(c, &sb)
 	for _, r := range required {
 		if strings.Contains(sb.String(), "\ndef "+r.name+" :") {
 			continue
